@@ -422,6 +422,7 @@ pub trait MapValidBasic<T: IsNone>: TrustedLen<Item = T> + Sized {
             }
             bins.titer().map(IsNone::unwrap).collect_trusted_vec1()
         };
+        let n_edges = bins.len();
         if right {
             Ok(Box::new(self.map(move |value| {
                 if value.is_none() {
@@ -429,12 +430,16 @@ pub trait MapValidBasic<T: IsNone>: TrustedLen<Item = T> + Sized {
                 } else {
                     let value = value.unwrap();
                     let mut out = None;
-                    for (bound, label) in bins
+                    for (i, (bound, label)) in bins
                         .titer()
                         .tuple_windows::<(T::Inner, T::Inner)>()
                         .zip(labels.titer())
+                        .enumerate()
                     {
-                        if (bound.0 < value) && (value <= bound.1) {
+                        // the added outer bounds are open: MIN / MAX themselves belong to a bin
+                        let lower_ok = (add_bounds && i == 0) || (bound.0 < value);
+                        let upper_ok = (add_bounds && i + 2 == n_edges) || (value <= bound.1);
+                        if lower_ok && upper_ok {
                             out = Some(label.clone());
                             break;
                         }
@@ -449,12 +454,16 @@ pub trait MapValidBasic<T: IsNone>: TrustedLen<Item = T> + Sized {
                 } else {
                     let value = value.unwrap();
                     let mut out = None;
-                    for (bound, label) in bins
+                    for (i, (bound, label)) in bins
                         .titer()
                         .tuple_windows::<(T::Inner, T::Inner)>()
                         .zip(labels.titer())
+                        .enumerate()
                     {
-                        if (bound.0 <= value) && (value < bound.1) {
+                        // the added outer bounds are open: MIN / MAX themselves belong to a bin
+                        let lower_ok = (add_bounds && i == 0) || (bound.0 <= value);
+                        let upper_ok = (add_bounds && i + 2 == n_edges) || (value < bound.1);
+                        if lower_ok && upper_ok {
                             out = Some(label.clone());
                             break;
                         }
